@@ -140,6 +140,8 @@ def render_foreign(enc, c, f, pyval):
     lex = f["lex"]
     if lex == "hex64":
         return "0x%016x" % (pyval & 0xFFFFFFFFFFFFFFFF)
+    if lex == "dec-padded":
+        return ("-" if pyval < 0 else "") + "0" * f["zeros"] + str(abs(pyval))
     if lex == "twos-complement-hex":
         h = twos(pyval, f.get("pad", 1)).hex().upper()
         return ("0x" + h) if f["prefix"] else h
